@@ -147,10 +147,14 @@ impl<R: DynamicChannelRegion> RegionHandler for DynamicChannelPlan<R> {
         ch_mask: ChannelMask<2>,
     ) -> Option<()> {
         match ch_mask_ctl {
-            0..=4 => {
+            0..=3 => {
                 let base_index = ch_mask_ctl as usize * 2;
                 channel_mask.set_bank(base_index, ch_mask.get_index(0));
                 channel_mask.set_bank(base_index + 1, ch_mask.get_index(1));
+            }
+            4 => {
+                // Only bank 8 exists; there is no tenth bank for the upper byte.
+                channel_mask.set_bank(8, ch_mask.get_index(0));
             }
             5 => {
                 let ch_mask: u16 =
